@@ -131,7 +131,16 @@ def by_name(qrs):
 
 
 def whole_bill(cfg):
-    return by_name(cfg.quantified_resources(cfg.cores * 1000, cfg.instance_memory(), 0))
+    """The bill of the WHOLE worker, computed independently of InstanceConfig.quantified_resources (and hence of its
+    worker_fraction arithmetic): every resource of the configuration is asked directly for its quantity at the full
+    fraction 1024/1024, all cores, all memory, no extra storage."""
+    out = []
+    for r in cfg.resources:
+        q = r.to_quantified_resource(cpu_in_mcpu=cfg.cores * 1000, memory_in_bytes=cfg.instance_memory(),
+                                     worker_fraction_in_1024ths=1024, external_storage_in_gib=0)
+        if q is not None:
+            out.append(q)
+    return by_name(out)
 
 
 def pack_ok(cloud, job_private, ci, preemptible, cs, ks):
